@@ -57,6 +57,9 @@ const (
 	fClassExprNamed // (class n{f(){B}});
 	fObjMethod      // ({f(n){B}});
 	fIfBlock        // if(n){B}else{B2}
+	fObjMethod0     // ({f(){B}});
+	fUseArr         // [n];
+	fUseObjKV       // ({k:n});
 	numForms
 )
 
@@ -68,7 +71,7 @@ type sk struct {
 
 func (f skForm) bodies() int {
 	switch f {
-	case fFuncDecl, fFuncDeclParam, fClassMethod, fBlock, fForLet, fForVarOf, fForConstOf, fForIn, fTryCatchNoBinding, fFuncExprNamed, fFuncExprParam, fArrowParen, fAsyncArrow, fParamDefault, fDefaultOuter, fSwitchLet, fClassExprNamed, fObjMethod:
+	case fFuncDecl, fFuncDeclParam, fClassMethod, fBlock, fForLet, fForVarOf, fForConstOf, fForIn, fTryCatchNoBinding, fFuncExprNamed, fFuncExprParam, fArrowParen, fAsyncArrow, fParamDefault, fDefaultOuter, fSwitchLet, fClassExprNamed, fObjMethod, fObjMethod0:
 		return 1
 	case fTryCatch, fIfBlock:
 		return 2
@@ -278,6 +281,10 @@ func (r *resolver) declare(list []*sk, s *rscope, funcLevel bool) {
 			r.declParam(fs, k.n)
 			r.scopeOf[k] = []*rscope{fs}
 			r.declare(k.b1, fs, true)
+		case fObjMethod0:
+			fs := newScope(scFunc, s)
+			r.scopeOf[k] = []*rscope{fs}
+			r.declare(k.b1, fs, true)
 		case fArrowSingle:
 			fs := newScope(scFunc, s)
 			r.declParam(fs, k.n)
@@ -456,6 +463,18 @@ func (w *renderer) list(list []*sk, s *rscope) {
 			w.raw("){")
 			w.list(k.b1, sc[0])
 			w.raw("}});")
+		case fObjMethod0:
+			w.raw("({f(){")
+			w.list(k.b1, sc[0])
+			w.raw("}});")
+		case fUseArr:
+			w.raw("[")
+			w.id(s, k.n, false)
+			w.raw("];")
+		case fUseObjKV:
+			w.raw("({k:")
+			w.id(s, k.n, false)
+			w.raw("});")
 		case fArrowParen:
 			w.raw("((")
 			w.id(sc[0], k.n, false)
